@@ -130,13 +130,19 @@ def run(chk: Check):
             sysd = runlevel.make_system(r2, norb=3 if wt == "uhf" else 4, nelec=nelec, nchol=2,
                                         trial_kind=wt, walker_type=wt, n_walkers=4, dt=0.02, n_batch=nb)
             systems[(wt, nb)] = converge_trial(sysd)
-    results = {}
+    results, killed = {}, {}
     traces, tmeta = [], []
     seed0 = 900 + chk.seed
     for k, (mode, rot, sr, wt, nb, blk) in enumerate(matrix(chk.tier)):
         sysd = systems[(wt, nb)]
         pd0 = runlevel.init_prop_data(sysd, seed0)
         pd0["weights"] = jnp.array([0.4, 1.6, 1.1, 0.9])
+        # "the same state": a state as it is handed over between driver iterations - stale stored overlaps, a carried
+        # population-control shift that differs from the running estimate, a left-over kill counter.  Every entry
+        # point has to (re)initialise these itself, exactly as the plain sampler does.
+        pd0["overlaps"] = pd0["overlaps"] * (1.21 + 0.3j) + 0.01
+        pd0["pop_control_ene_shift"] = pd0["e_estimate"] + 0.37
+        pd0["n_killed_walkers"] = jnp.array(7.0)
         smp = S(n_prop_steps=blk[0], n_ene_blocks=blk[1], n_sr_blocks=blk[2], n_blocks=1)
         o = {"ad_mode": mode, "orbital_rotation": rot, "do_sr": sr}
         ename = {None: "plain", "2rdm": "ad_2rdm"}.get(mode) or ("ad" + ("" if sr else "_nosr") + ("" if rot else "_norot"))
@@ -162,6 +168,7 @@ def run(chk: Check):
             chk.violation(site + ":nonfinite", f"{ename} returned a non-finite energy {e}", {"options": o})
             continue
         results[(mode, rot, sr, wt, nb, blk)] = e
+        killed[(mode, rot, sr, wt, nb, blk)] = float(np.asarray(out["prop_data"]["n_killed_walkers"]))
         # single energy block: the returned energy is the property's estimator of the walkers at measurement time
         blocks = block_from_events(ev, sysd["prop"].dt)
         if blk[1] * (blk[2] if ename in ("plain", "ad", "ad_norot", "ad_2rdm") else 1) == 1 and blocks:
@@ -203,6 +210,10 @@ def run(chk: Check):
         for key, e in items[1:]:
             tol = 1e-12 if (key[:4] == ref_key[:4] and key[5] == ref_key[5]) else 1e-10
             chk.case(("equal", str(key), str(ref_key)))
+            if abs(killed[key] - killed[ref_key]) > 1e-12 or not (0.0 <= killed[key] <= 1.0):
+                chk.violation(f"killed-fraction-mismatch:{key[0] or 'plain'}:{'rot' if key[1] else 'norot'}:{'sr' if key[2] else 'nosr'}:{key[3]}",
+                              f"same state and block structure {c[1]}: options {key} report killed fraction {killed[key]} but {ref_key} "
+                              f"report {killed[ref_key]}", {"a": list(map(str, key)), "b": list(map(str, ref_key))})
             if abs(e - ref) > tol * max(1, abs(ref)):
                 chk.violation(f"energy-mismatch:{key[0] or 'plain'}:{'rot' if key[1] else 'norot'}:{'sr' if key[2] else 'nosr'}:{key[3]}:nb{key[4]}",
                               f"same state, seed, converged trial and block structure {c[1]}: options {key} return {e} but "
